@@ -1702,6 +1702,24 @@ theorem fixed_tcp_remote_reaches_the_written_target (o : RemoteSpec.Oracle) (s l
       (server_connects_only_to_a_resolved_address_of_the_stream_target senv (hostOctets rh) rp).2.1 a (Or.inr (Or.inl ha))
     exact ⟨as, h1, h2⟩
 
+/-- The same chain for a fixed UDP remote: the text parses to a `/udp` remote ⇒ `handle_remote` starts the UDP listener
+    on exactly that local address for exactly that target (and a datagram handler, never a TCP one), and every frame the
+    listener sends, for every sequence of received datagrams and interleaved operations of other tasks on the maps,
+    names exactly `(rh, rp)` and carries the received payload under its own sender's id. -/
+theorem fixed_udp_remote_frames_name_the_written_target (o : RemoteSpec.Oracle) (s lh rh : RemoteSpec.Str) (lp rp : Nat)
+    (h : RemoteSpec.parse o s = .ok ⟨.inet lh lp, .inet rh rp, .udp⟩)
+    (c : FixedTarget.UdpCfg) (hc : c.rhost = hostOctets rh ∧ c.rport = rp) (m : UdpMap.Maps) (ins : List FixedTarget.UIn)
+    (hok : ∀ out ∈ (FixedTarget.udpListener c m ins).2, out.stops = false) :
+    Dispatch.dispatch ⟨.inet lh lp, .inet rh rp, .udp⟩ = .udpForward lh lp rh rp ∧
+    (Dispatch.dispatch ⟨.inet lh lp, .inet rh rp, .udp⟩).isUdp = true ∧
+    (∀ (k : Nat) peer data rng txOk, ins[k]? = some (FixedTarget.UIn.rx peer data rng txOk) →
+      ∃ cid, (FixedTarget.udpListener c m ins).2[k]? =
+        some (FixedTarget.UOut.sent { flowId := cid, host := hostOctets rh, port := rp, data := data })) := by
+  refine ⟨rfl, (dispatch_udp_remote_gets_datagram_handler o s _ h).mpr rfl, ?_⟩
+  intro k peer data rng txOk hk
+  obtain ⟨cid, _, hsent⟩ := (udp_each_datagram_carries_its_senders_id c m ins hok).2.2.1 k peer data rng txOk hk
+  exact ⟨cid, by rw [hsent, hc.1, hc.2]⟩
+
 /-- Non-vacuity: `8080:example.com:80` is such a text. -/
 example : RemoteSpec.parse plainOracle "8080:example.com:80".toList =
     .ok ⟨.inet "0.0.0.0".toList 8080, .inet "example.com".toList 80, .tcp⟩ := by decide
